@@ -21,7 +21,10 @@ Separated(tab) == \A k \in 2..(Len(tab) - 1) :
 Verdict(e) ==
   IF "panic" \in DOMAIN e THEN "panic"
   ELSE LET tab == e.table IN
-  IF ~WellFormed(tab) \/ ~Separated(tab) THEN "harness"
+  IF ~WellFormed(tab) THEN "harness"
+  \* a zone with two clock changes closer to each other than their jumps (Asia/Aqtau in the 1990s): the monotonicity theorem of
+  \* MC_Localize does not cover it; its events are counted, not judged
+  ELSE IF ~Separated(tab) THEN "unseparated"
   ELSE IF Naive(tab, e.t_utc) # e.naive_t THEN "table"
   ELSE IF e.state_tz # e.state_naive THEN "state"
   ELSE IF e.next_tz # (IF e.next_naive = None THEN None ELSE Datetime(tab, e.next_naive)) THEN "next_change"
@@ -45,7 +48,7 @@ Report(k) ==
       v == Verdict(e)
   IN /\ PrintT(<<"STAT", ToJson([id |-> e.id, v |-> v, near |-> NearTransition(e),
                                  special |-> IF v = "panic" THEN FALSE ELSE InFoldOrGap(e)])>>)
-     /\ (v \in {"ok", "panic"} \/ PrintT(<<"MISMATCH", ToJson([id |-> e.id, what |-> v])>>))
+     /\ (v \in {"ok", "panic", "unseparated"} \/ PrintT(<<"MISMATCH", ToJson([id |-> e.id, what |-> v])>>))
 
 Init == l = 0
 Next == l < Len(Rec) /\ l' = l + 1 /\ Report(l + 1)
